@@ -171,8 +171,17 @@ func sqlOf(evs []recdrv.Event) []string {
 // column without UPDATE permission overwritten in an EXISTING (conflicting) row by an explicit
 // DoUpdates list; the same class in a row the upsert inserts is a create-permission matter and
 // has the ordinary family/class signature.
-func signature(o *op, x problem) string {
+func signature(m *model, o *op, x problem) string {
 	switch {
+	case m.blockedCol(x.Col) && (x.Class == "missing-write" || (x.Class == "wrong-value-written" && o.family == "upsert-doupdates" && !x.NewRow)):
+		// a column whose permission-less duplicate on the shorter path is declared BEFORE the
+		// embedded struct holding the writable field: its own class (in an upsert conflict row the
+		// listed excluded.<col> is the value of a column the INSERT did not write)
+		return "permissionless-outer-duplicate-declared-first/column-not-written"
+	case o.zeroLast:
+		// Model(slice) whose LAST element carries no key: its own class (the other elements' keys
+		// must still restrict the update)
+		return "model-slice-last-element-without-key/" + x.Class
 	case x.Class == "save-fallback-upsert-ignores-conditions":
 		return x.Class
 	case o.family == "upsert-doupdates" && x.Class == "denied-column-written" && !x.NewRow:
@@ -183,11 +192,11 @@ func signature(o *op, x problem) string {
 
 // signatures: the distinct signatures of the disagreements of one operation, in order. Next to an
 // error the predicted cells that are missing are its consequence, not findings of their own.
-func signatures(o *op, probs []problem) []string {
+func signatures(m *model, o *op, probs []problem) []string {
 	var out []string
 	seen := map[string]bool{}
 	add := func(x problem) {
-		if sg := signature(o, x); !seen[sg] {
+		if sg := signature(m, o, x); !seen[sg] {
 			seen[sg] = true
 			out = append(out, sg)
 		}
@@ -253,6 +262,19 @@ func run(c *core.Ctx) {
 	} else {
 		c.Inc("model_key_" + m.pk.k.name)
 	}
+	for _, n := range m.layoutFeatures() {
+		c.Inc("model_embedded_struct_" + n)
+	}
+	for _, d := range m.dups {
+		n := d.role
+		if d.role == "ghost-outer" && d.first {
+			n += "-declared-first"
+		}
+		c.Inc("model_duplicate_column_" + n)
+	}
+	if m.zeroGrid {
+		c.Inc("model_key_composite_with_zero_parts")
+	}
 	nops := 12
 	for i := 0; i < nops; i++ {
 		kind := core.Pick(r, opKinds)
@@ -285,7 +307,7 @@ func run(c *core.Ctx) {
 			for _, x := range probs {
 				ps = append(ps, x.String())
 			}
-			for _, sg := range signatures(o, probs) {
+			for _, sg := range signatures(m, o, probs) {
 				c.Inc("violation_" + sg)
 				c.Violation(sg, map[string]interface{}{
 					"model":       m.decls(),
@@ -301,7 +323,8 @@ func run(c *core.Ctx) {
 			continue
 		}
 		// what the case exercised
-		var nMust, nDenied, nNarrow, nRefresh, nZero, nDefKept, nDefZero int
+		var nMust, nDenied, nNarrow, nRefresh, nZero, nDefKept, nDefZero, nEmb, nDupMust, nDupKept int
+		dupHit := map[string]bool{}
 		defsHit := map[string]bool{}
 		permsHit := map[string]bool{}
 		for _, k := range p.order {
@@ -319,6 +342,22 @@ func run(c *core.Ctx) {
 						}
 					} else if e.mode == mMust && e.alt != "" {
 						nDefZero++
+					}
+				}
+				if e.mode == mMust && !f.pk {
+					if f.grp != nil {
+						nEmb++
+					}
+					if f.dup != nil && !f.blocked {
+						nDupMust++
+						dupHit[f.dup.role] = true
+					}
+				} else if e.mode == mKeep && f.dup != nil && (re.isNew || contains(p.target, k)) {
+					if rc := recOfKey(m, o, k); rc != nil && !o.isMap {
+						if dv, ok := rc.dvals[f.dup.id]; ok && !isGoZero(f.dup.k, dv) {
+							nDupKept++ // the duplicate carried a value while the column had to stay
+							dupHit[f.dup.role] = true
+						}
 					}
 				}
 				switch {
@@ -343,6 +382,40 @@ func run(c *core.Ctx) {
 		c.Add("cells_zero_or_untracked_checked", nZero)
 		c.Add("cells_default_field_value_kept_out_on_insert", nDefKept)
 		c.Add("cells_default_field_zero_value_on_insert", nDefZero)
+		c.Add("cells_written_through_embedded_struct", nEmb)
+		c.Add("cells_written_next_to_duplicate_field", nDupMust)
+		c.Add("cells_kept_although_duplicate_field_nonzero", nDupKept)
+		if o.modelSlice {
+			var zp, zk, rp bool
+			seenK := map[string]bool{}
+			for _, k := range o.modelElems {
+				switch {
+				case m.keyIsZero(k):
+					zk = true
+				case !m.fullKey(k):
+					zp = true
+				}
+				if seenK[normL(k)] {
+					rp = true
+				}
+				seenK[normL(k)] = true
+			}
+			if zp {
+				c.Inc("ops_model_slice_element_with_zero_key_part")
+			}
+			if zk {
+				c.Inc("ops_model_slice_element_without_key")
+			}
+			if rp {
+				c.Inc("ops_model_slice_repeated_key")
+			}
+			if o.modelArray {
+				c.Inc("ops_model_array")
+			}
+			if o.modelElemPtr {
+				c.Inc("ops_model_slice_of_pointers")
+			}
+		}
 		if o.dropKey {
 			c.Inc("ops_create_key_carried_but_omitted")
 		}
@@ -408,13 +481,41 @@ func run(c *core.Ctx) {
 				dh = append(dh, t)
 			}
 			sort.Strings(dh)
-			c.Shape(o.kind, o.tform, o.selMode, spell, ph, fm, nMust > 0, nRefresh > 0, nNarrow > 0, nZero > 0, len(p.target) > 1, m.pk.k.name, len(m.pks), dh, o.dropKey, o.reordered, listForm(o))
+			var du []string
+			for t := range dupHit {
+				du = append(du, t)
+			}
+			sort.Strings(du)
+			c.Shape(o.kind, o.tform, o.selMode, spell, ph, fm, nMust > 0, nRefresh > 0, nNarrow > 0, nZero > 0, len(p.target) > 1, m.pk.k.name, len(m.pks), dh, o.dropKey, o.reordered, listForm(o),
+				nEmb > 0, m.layoutName(), du, sliceForm(m, o))
 			if c.WantSample() && i == 5 {
 				c.Sample(map[string]interface{}{"model": m.decls(), "operation": desc, "target_rows": p.target, "sql": sqlOf(evs),
 					"checked": fmt.Sprintf("%d written cells, %d denied, %d narrowed, %d refreshed, %d rows outside the target unchanged", nMust, nDenied, nNarrow, nRefresh, len(m.rows)-len(p.target))})
 			}
 		}
 	}
+}
+
+// sliceForm: what the elements of a Model(slice) look like (part of the case shape).
+func sliceForm(m *model, o *op) string {
+	if !o.modelSlice {
+		return ""
+	}
+	out := "slice"
+	if o.modelArray {
+		out = "array"
+	}
+	if o.modelElemPtr {
+		out += "-ptr"
+	}
+	for _, k := range o.modelElems {
+		if m.keyIsZero(k) && !strings.Contains(out, "+nokey") {
+			out += "+nokey"
+		} else if !m.keyIsZero(k) && !m.fullKey(k) && !strings.Contains(out, "+zeropart") {
+			out += "+zeropart"
+		}
+	}
+	return out
 }
 
 // listForm: how the lists of names were handed to Select / Omit (part of the case shape).
@@ -445,6 +546,15 @@ func recOfKey(m *model, o *op, k string) *rec {
 		return o.recs[0] // database-assigned keys: batches are uniform per default field (uniformDefaults)
 	}
 	return nil
+}
+
+func (m *model) blockedCol(col string) bool {
+	for _, f := range m.fields {
+		if f.col == col && f.blocked {
+			return true
+		}
+	}
+	return false
 }
 
 func contains(xs []string, x string) bool {
